@@ -33,6 +33,8 @@ pub struct Case {
     /// `parse_starts_at(.., start)`: node ranges are offsets into the whole text, and the first
     /// `locate` of the linear cursor has to cross everything in front of the program
     pub start: usize,
+    /// the source text starts this many bytes into a buffer (unaligned slice start)
+    pub align: u8,
 }
 
 macro_rules! counters {
@@ -62,6 +64,7 @@ counters!(
     fault_truncated,
     fault_chunk_deleted,
     fault_parsed_from_an_offset,
+    fault_unaligned_text_address,
     fault_statementwise_fold,
     fault_subset_of_statements_fold,
     probe_bom_program,
@@ -349,6 +352,7 @@ pub fn generate(seed: u64, config: u64, scale: u32) -> Case {
         expect_valid,
         constructs: prog.constructs,
         start,
+        align: if r.chance(1, 2) { r.below(8) as u8 } else { 0 },
     }
 }
 
@@ -469,11 +473,20 @@ pub fn execute(case: &Case, stats: &mut Stats) -> Outcome {
 }
 
 fn execute_inner(case: &Case, stats: &mut Stats, non_extent: &mut Option<(usize, String)>) -> Outcome {
-    let src: &str = &case.source;
+    let mut buf = String::with_capacity(case.source.len() + 8);
+    for _ in 0..case.align {
+        buf.push('#');
+    }
+    buf.push_str(&case.source);
+    let src: &str = &buf[case.align as usize..];
+    if case.align > 0 {
+        stats.bump(C::fault_unaligned_text_address as usize);
+    }
     let mut dg = Digest::default();
     dg.str(src);
     dg.byte(case.mode as u8);
     dg.word(case.start as u64);
+    dg.byte(case.align);
     let done = |dg: Digest, steps: u64, violation: Option<Violation>| Outcome {
         digest: dg.0,
         steps,
@@ -965,6 +978,7 @@ pub fn shrink(case: &Case) -> Vec<Case> {
             expect_valid: false,
             constructs: Vec::new(),
             start: 0,
+            align: case.align,
         };
         let mut v = vec![inner.clone()];
         let plines = split_keep_eol(prefix);
@@ -993,6 +1007,7 @@ pub fn shrink(case: &Case) -> Vec<Case> {
         expect_valid: false,
         constructs: Vec::new(),
         start: 0,
+        align: case.align,
     };
     // whole lines
     let lines = split_keep_eol(&case.source);
@@ -1050,6 +1065,11 @@ pub fn shrink(case: &Case) -> Vec<Case> {
     if case.mode != PMode::Module {
         out.push(mk(case.source.clone(), PMode::Module));
     }
+    if case.align > 0 {
+        let mut c = mk(case.source.clone(), case.mode);
+        c.align = 0;
+        out.push(c);
+    }
     out
 }
 
@@ -1058,6 +1078,7 @@ pub fn case_size(case: &Case) -> usize {
         + case.source.chars().filter(|c| !c.is_ascii() || *c == '\r').count() * 10
         + (case.mode != PMode::Module) as usize
         + (case.start > 0) as usize * 50
+        + case.align as usize * 2
 }
 
 pub fn case_to_json(case: &Case) -> J {
@@ -1074,6 +1095,7 @@ pub fn case_to_json(case: &Case) -> J {
         ),
         ("expect_valid", case.expect_valid.into()),
         ("parse_starts_at", case.start.into()),
+        ("text_starts_at_buffer_offset", (case.align as u32).into()),
     ])
 }
 
@@ -1091,6 +1113,7 @@ pub fn case_from_json(j: &J) -> Result<Case, String> {
         expect_valid: j.get("expect_valid").and_then(J::as_bool).unwrap_or(false),
         constructs: Vec::new(),
         start: j.get("parse_starts_at").and_then(J::as_u64).unwrap_or(0) as usize,
+        align: j.get("text_starts_at_buffer_offset").and_then(J::as_u64).unwrap_or(0) as u8,
     })
 }
 
